@@ -78,3 +78,22 @@ def readHeader (maxSize : Nat) (r : Reader) : Except HdrErr (Bytes × Reader × 
 
 end Framing
 end Bifrost
+
+namespace Bifrost
+namespace Framing
+
+/-- Bytes allocated by `readStreamEstablishHeader` for ANY stream (also when it ends in an
+error): the 4-byte prefix buffer plus, only after the length checks passed, the header buffer. -/
+def readHeaderAlloc (maxSize : Nat) (r : Reader) : Nat :=
+  match readAtLeast r [] 4 4 with
+  | none => 4
+  | some (b4, _) =>
+    match Pb.consume b4 with
+    | .eof | .overflow => 4
+    | .ok headerLen _ =>
+      if headerLen > maxInt32 then 4
+      else if headerLen > maxSize ∨ headerLen = 0 then 4
+      else 4 + headerLen
+
+end Framing
+end Bifrost
